@@ -378,18 +378,19 @@ def run(chk):
         for gap in gaps:
             li, ti = gap
             in_dir = lines[li][0] == '#' and ti > 0
+            BL = (0, 1, 2) if quick else (0, 1, 2, 3, 4)       # comment body lengths (0: the empty comment /**/)
             if ti == 0:
-                kinds = [('blanks', 2), ('block', 2), ('line', 2), ('directive', 2)]
+                kinds = [('blanks', 2), ('directive', 2)] + [('block', k) for k in BL[:3]] + [('line', k) for k in BL[:3]]
             elif in_dir:
-                kinds = [('blanks', 2), ('block', 2), ('continuation', 0)]
+                kinds = [('blanks', 2), ('continuation', 0)] + [('block', k) for k in BL[:3]]
             else:
-                kinds = [('blanks', 2), ('block', 2 if quick else 4), ('line', 2 if quick else 4)]
+                kinds = [('blanks', 2)] + [('block', k) for k in BL] + [('line', k) for k in BL]
             if lines[li][0] == '#' and ti == 1:
                 kinds = [('blanks', 2)]           # between '#' and 'define': blanks only (a comment there is legal C but unusual)
             for kind, n in kinds:
                 cases.append(P + ('insert', base_name, gap, kind, n))
     chk.bounds = {'base cdefs': '%d token lists (#define, functions with ..., partial struct/enum, [...] arrays, int... typedefs, extern "Python", qualifiers)' % len(BASES),
-                  'insertion': 'one separator at every token gap; blanks of 2 characters, comment bodies of 2..%d arbitrary characters, continuation, line directive with symbolic digit/name' % (2 if quick else 4)}
+                  'insertion': 'one separator at every token gap; blanks of 2 characters, comment bodies of 0..%d arbitrary characters, continuation, line directive with symbolic digit/name' % (2 if quick else 4)}
     chk.outside = ['pycparser itself (the comparison is on the token stream handed to it) and everything after _preprocess',
                    'several insertions at once; longer comment bodies; non-ASCII characters; string literals inside comments ("\\"" excluded: it only triggers a warning)',
                    'comments between "#" and "define"; _workaround_for_old_pycparser (pycparser < 2.14 only)']
